@@ -1209,6 +1209,43 @@ def run_callback_transparency_typed(ck):
             ck.violation(dict(clause="function-of-values", detector=det.name, scenario="deepcopy"), dict(what="a deep copy of the detector taken in mid-stream continues differently from the original on the same values", detector=det.name, config=c, copied_at=cut, step=step, original=t0[step], copy=t3[step], n=n))
 
 
+def run_kswin_large_window(ck):
+    """KSWIN with a window of more than a thousand values: two runs with the same configuration, stream and NumPy generator
+    state give the same flags (NumPy's global generator is the ONLY source of randomness), and each draw is taken from the
+    older part of the window (checked through the recorded np.random.choice calls)."""
+    import random as _random
+    from frouros.detectors.concept_drift import KSWIN as _KSWIN, KSWINConfig as _KSWINConfig
+
+    prng = _random.Random(161616)
+    n, test = 1100, 40
+    stream = [prng.gauss(0, 1) for _ in range(n)] + [prng.gauss(0.15, 1) for _ in range(60 if ck.tier != "thorough" else 300)]
+    runs = []
+    draws = []
+    try:
+        for rep in range(2):
+            with ChoiceRecorder() as rec:
+                d = _KSWIN(config=_KSWINConfig(alpha=0.2, seed=77, min_num_instances=n, num_test_instances=test))
+                np.random.seed(4321)
+                out = []
+                for v in stream:
+                    d.update(value=v)
+                    out.append(bool(d.drift))
+                draws.append(len(rec.draws))
+            runs.append(out)
+    except Exception as e:  # noqa: BLE001
+        ck.violation(dict(clause="raises", detector="KSWIN", scenario="large-window"), dict(error=repr(e), min_num_instances=n, num_test_instances=test))
+        return
+    due = len(stream) - n + 1  # one draw per update once the window is full
+    flips = sum(1 for a, b_ in zip(runs[0][:-1], runs[0][1:]) if a != b_)
+    ck.case(dict(kind="kswin-large-window", min_num_instances=n, num_test_instances=test, updates=len(stream), drift_flag_changes=flips), nontrivial=flips > 0, key=repr(("kswin-large", n, test)))
+    ck.count("kswin_large_window_runs", 2)
+    if runs[0] != runs[1]:
+        step = next(i for i, (a, b_) in enumerate(zip(*runs)) if a != b_)
+        ck.violation(dict(clause="kswin-determinism", scenario="large-window"), dict(what="two KSWIN runs with the same configuration, stream and NumPy generator state report different flags", min_num_instances=n, num_test_instances=test, seed=77, reseed=4321, first_difference=step))
+    elif draws != [due, due]:
+        ck.violation(dict(clause="kswin-determinism", scenario="large-window", cause="draws-not-from-numpy"), dict(what="once the window is full every update must draw its sample through np.random.choice (NumPy's global generator)", draws_seen=draws, updates_with_full_window=due, min_num_instances=n))
+
+
 def main(tier, seed):
     ck = Check("C16", tier, seed)
     ck.proof = check_props("C16")
@@ -1217,6 +1254,7 @@ def main(tier, seed):
     run_function_of_values_since_reset(ck)
     run_input_representation(ck)
     run_callback_transparency_typed(ck)
+    run_kswin_large_window(ck)
     return ck.finish()
 
 
